@@ -39,7 +39,7 @@ impl Callable for Procedure {
         source: Arc<str>,
     ) -> Result<Value, RuntimeError> {
         // save the return value
-        let cached_return_value = interpreter.return_value.clone();
+        let cached_return_value = interpreter.return_value.take();
 
         // todo: consider allowing variables to be taken into context
         // ignore the global env
